@@ -40,6 +40,7 @@ const (
 	evHExit      = "handler-exit"
 	evHUnwind    = "handler-unwind"   // a panic unwound the handler (nested stage panicked)
 	evHook       = "complete-hook"    // Stage.Complete() called by the state machine
+	evHookPanic  = "complete-panic"   // injected panic inside Stage.Complete()
 	evCallback   = "callback"         // the completion callback of the pipeline
 	evMainReturn = "main-return"      // pipeline.Execute returned
 	evMainPanic  = "main-panic"       // pipeline.Execute panicked (must never happen)
@@ -410,7 +411,13 @@ func (c *caseRun) build(s *stageSpec, depth int) stage.Stage {
 		c.rec(evNextReturn, id, 0, nil, fmt.Sprintf("%d", len(out)))
 		return out
 	}
-	onComplete := func() { c.rec(evHook, id, 0, nil, "") }
+	onComplete := func() {
+		c.rec(evHook, id, 0, nil, "")
+		if s.CompletePanic {
+			c.rec(evHookPanic, id, 0, nil, "")
+			panic(fmt.Sprintf("c19-fail-s%d-complete", id))
+		}
+	}
 	types := []stage.Type{stage.MetadataLookup, stage.ShardScan, stage.Grouping, stage.DataLoad}
 	//nolint:staticcheck // a nil context is a supported way to make a baseStage synchronous
 	h.VerifStage = stage.NewVerifStage(ctx, pool, types[depth%len(types)], fmt.Sprintf("s%d", id), plan, next, onComplete)
@@ -444,6 +451,7 @@ type caseOutcome struct {
 	Lost      []int    `json:"lost,omitempty"`
 	Abandoned []int    `json:"abandoned,omitempty"`
 	Retry     bool     `json:"-"`
+	Deadlock  string   `json:"deadlocked_goroutine,omitempty"`
 	NAsync    int      `json:"-"`
 }
 
@@ -635,6 +643,16 @@ func runCaseOnce(spec *treeSpec, opts runOpts) *caseOutcome {
 			c.abandonDead(out)
 			continue
 		}
+		// An injected panic in Stage.Complete() on a tree whose state machine lets it escape with the mutex held: a runner of
+		// this case waits for ever in sync.Mutex.Lock under completeStage with a lower completeStage frame of the same
+		// state machine on its own stack (proof from goroutine states, as in the leaf workload).
+		if c.hookPanicSeen() && time.Since(stallSince) > 300*time.Millisecond {
+			if proof := c.selfDeadlock(); proof != "" {
+				out.Deadlock = proof
+				c.poolsStopped = true // their workers never come back
+				break
+			}
+		}
 		if time.Since(stallSince) > caseWatchdog {
 			c.mu.Lock()
 			lost := c.lostRunnersLocked()
@@ -643,7 +661,7 @@ func runCaseOnce(spec *treeSpec, opts runOpts) *caseOutcome {
 			break
 		}
 	}
-	if out.Watchdog == "" && !out.Retry {
+	if out.Watchdog == "" && !out.Retry && out.Deadlock == "" {
 		c.mu.Lock()
 		ncb := c.nCb
 		c.mu.Unlock()
@@ -766,6 +784,48 @@ func (c *caseRun) poolCountersIdle(out *caseOutcome) bool {
 		time.Sleep(2 * time.Millisecond)
 	}
 	return idle
+}
+
+func (c *caseRun) hookPanicSeen() bool {
+	c.mu.Lock()
+	defer c.mu.Unlock()
+	for _, e := range c.ev {
+		if e.Kind == evHookPanic {
+			return true
+		}
+	}
+	return false
+}
+
+// selfDeadlock returns the stack of a goroutine of this case that waits for a state machine mutex held by one of its
+// own lower frames.
+func (c *caseRun) selfDeadlock() string {
+	c.mu.Lock()
+	mine := map[string]bool{}
+	for _, e := range c.ev {
+		if e.G != 0 {
+			mine[fmt.Sprint(e.G)] = true
+		}
+	}
+	c.mu.Unlock()
+	buf := make([]byte, 8<<20)
+	n := runtime.Stack(buf, true)
+	for _, b := range strings.Split(string(buf[:n]), "\n\n") {
+		m := reGoroutineHdr.FindStringSubmatch(b)
+		if m == nil || !mine[m[1]] || !strings.Contains(m[2], "Mutex.Lock") {
+			continue
+		}
+		frames := reSMFrame.FindAllStringSubmatch(b, -1)
+		for _, f := range frames[min(1, len(frames)):] {
+			if f[2] == frames[0][2] && f[1] == "completeStage" {
+				if len(b) > 6000 {
+					b = b[:6000]
+				}
+				return b
+			}
+		}
+	}
+	return ""
 }
 
 // frozen reports whether nothing of this case can be executing: see the driver loop.
